@@ -125,7 +125,7 @@ func H_C20_split_each() {
 func H_C20_split_vectors() {
 	reps := []string{"-race", "-v", "-json", "-tags", "-ldflags", "-run", "-o", "-C", "-short", "-p"}
 	var all []string
-	n := symx.Choose(tier(3, 4))
+	n := symx.Choose(3)
 	for i := 0; i < n; i++ {
 		name := reps[symx.Choose(tier(6, len(reps)))]
 		var f goDocFlag
@@ -195,6 +195,10 @@ func H_C20_forward() {
 	n := 1 + symx.Choose(tier(1, 2))
 	for i := 0; i < n; i++ {
 		f := goDocFlags[symx.Choose(len(goDocFlags))]
+		if i > 0 {
+			// the second flag comes from one representative per class
+			f = goDocFlags[[]int{0, 1, 3, 4, 20, 21, len(goDocFlags) - 1, len(goDocFlags) - 2}[symx.Choose(8)]%len(goDocFlags)]
+		}
 		form := symx.Choose(3)
 		v := symx.String("v", 1+symx.Choose(tier(1, 2)))
 		if !f.Bool && symx.Choose(2) == 1 {
